@@ -54,6 +54,8 @@ pub enum M {
     S0,
     S1,
     S2,
+    /// argument type whose Debug rendering can panic (reached while the mock renders an error)
+    D0,
 }
 
 #[derive(Clone, Copy, Debug, PartialEq, Eq)]
@@ -119,6 +121,7 @@ pub const ALL_M: &[M] = &[
     M::S0,
     M::S1,
     M::S2,
+    M::D0,
 ];
 
 impl M {
@@ -164,6 +167,7 @@ impl M {
             M::S0 => ("Skip", "s0", false, false, true, Recv::Ref, false),
             M::S1 => ("Skip", "s1", false, false, false, Recv::Ref, false),
             M::S2 => ("Skip", "s2", false, false, true, Recv::Ref, false),
+            M::D0 => ("DbgT", "d0", false, false, false, Recv::Ref, false),
         };
         MInfo {
             m: self,
